@@ -81,8 +81,10 @@ func c08MakeDoc(kind, name string, hook *string, extraAnn string, nl string, var
 			}
 		}
 	}
-	line("data:")
-	line("  key: \"value of " + name + "\"")
+	if variant%4 == 0 {
+		line("data:")
+		line("  key: \"value of " + name + "\"")
+	}
 	if variant%5 == 2 {
 		line("  # a comment inside the document")
 		line("  dashes: \"a --- b\"")
